@@ -84,6 +84,46 @@ CHECKS = {
         "prepends is not program content; WDC is skipped above 24-bit addresses; macho/amiga are not content-checked.",
    technique="TLA+ transcription of the file format specifications; TLC-enumerated layouts replayed through the "
              "real writers/loaders; TLC decodes the tokenized files and decides"),
+ "C13": dict(
+   category="model_checking",
+   text="The specifications (AsmData!Denote, TwoPass) have no variable for options, output names or history; Determ.tla "
+        "states the consequence on groups of real runs of one source. Sources are TLC-drawn data programs and two-pass "
+        "programs on several carriers, fixed programs and the repository's samples. Per source: in-process histories "
+        "(A;A, B;A, failing C;A) and a pass-1-leftover detector (every byte pass 1 wrote is re-marked between the passes; a "
+        "byte still carrying the mark after pass 2 is in the image only because of pass 1), and the real executable with 6 "
+        "reporting-option sets x 6 output types x 2 output names; TLC requires every run to give the reference image and "
+        "decodes every written file (ObjFormats) against it; same-type outputs must be byte-identical (S0 header masked).",
+   design_ref="DESIGN.md 4 C13",
+   note="Trusted: the harness re-marking (changes only the per-byte marker, not data), lexers/decoders of C03. naken_util's "
+        "interactive asm is unusable in this snapshot (see C19), so the in-process history uses fresh AsmContext objects as "
+        "assemble_code() does.",
+   technique="TLA+ determinism statement over run groups + ObjFormats decoders; real runs (library seam and "
+             "executable) accepted by TLC"),
+ "C14": dict(
+   category="model_checking",
+   text="Msp430Cpu.tla transcribes one instruction step of the MSP430 core from SLAU144 (operand fetch with all "
+        "addressing modes, constant generators, auto-increment, byte/word write-back, C Z N V for the 12 two-operand "
+        "and 7 one-operand instructions, 8 jumps). TLC enumerates prepared states (instruction x modes x size x "
+        "registers x operand values at carry/overflow/BCD boundaries x carry in: 96k quick, 0.9M thorough); the real "
+        "SimulateMsp430 executes one step from each and TLC recomputes the step and compares registers, flags and "
+        "changed memory.",
+   design_ref="DESIGN.md 4 C14",
+   note="Trusted: my transcription of SLAU144 (V after DADD, DADD on non-BCD digits, the upper stack byte of PUSH.B are "
+        "unconstrained), harness/m_sim.cpp. Encodings outside the core set are not judged here. -run/-break_io and cycle "
+        "counts are not covered in this revision.",
+   technique="TLA+ ISA step function as oracle; TLC-enumerated states replayed into the simulator; TLC trace acceptor"),
+ "C15": dict(
+   category="exploration",
+   text="SimStep.tla states that a simulator step is a total deterministic function of the prepared state. For each of "
+        "the 17 simulator entries of cpu_list[], leading 16-bit patterns (1,756 quick / 65,536 thorough) with three register "
+        "presets and three PC values are executed twice each in the AddressSanitizer + bounds build; TLC accepts a case "
+        "iff both runs returned executed/illegal and agree; runs that die (signal, sanitizer report, exit(), timeout) are "
+        "reported directly.",
+   design_ref="DESIGN.md 4 C15",
+   note="Memory-safety oracle is the sanitizer build, not the specification. State observed through dump_registers(), "
+        "get_reg() and changed memory bytes. The PC-vs-disassembler-length clause is not checked in this revision.",
+   technique="TLA+ determinism/totality statement; spec-enumerated opcode cases replayed into sanitizer-built "
+             "simulators; TLC trace acceptor"),
 }
 
 NOT_YET = "machinery for this property is not built yet in this revision (planned in DESIGN.md section 8)"
